@@ -18,8 +18,11 @@ import time
 import traceback
 
 VERIF = os.path.dirname(os.path.dirname(os.path.abspath(__file__)))
-REPLAYS = os.path.join(VERIF, "replays")
-EVIDENCE = os.path.join(VERIF, "evidence")
+REGRESSION = os.path.join(VERIF, "replays", "regression")
+# a check run on a scratch tree (mutants) must not overwrite the evidence and replays of the real one
+_OUT = os.environ.get("AWSIM_OUT_DIR")
+REPLAYS = os.path.join(_OUT, "replays") if _OUT else os.path.join(VERIF, "replays")
+EVIDENCE = os.path.join(_OUT, "evidence") if _OUT else os.path.join(VERIF, "evidence")
 
 MASK64 = (1 << 64) - 1
 
@@ -279,6 +282,19 @@ def run_batch(machine, libpath, indices, verif_seed, prop, opts, workers=None, o
                     how = "exit:%d" % os.WEXITSTATUS(status)
                 deaths.append(WorkerDeath(st["cur"], how))
                 pos = st["shard"].index(st["cur"]) + 1
+                if len(deaths) >= opts.get("abort_after_deaths", 96):
+                    # the verdict is settled many times over: do not spend minutes on more crashes and hangs
+                    for st2 in procs.values():
+                        try:
+                            os.kill(st2["pid"], signal.SIGKILL)
+                        except OSError:
+                            pass
+                    for fd2, st2 in list(procs.items()):
+                        os.close(fd2)
+                        os.waitpid(st2["pid"], 0)
+                    procs.clear()
+                    opts["_aborted_after_deaths"] = len(deaths)
+                    break
                 spawn(st["shard"][pos:])
             elif os.WIFEXITED(status) and os.WEXITSTATUS(status) not in (0,):
                 raise RuntimeError("worker exited with status %d outside a run" % os.WEXITSTATUS(status))
